@@ -26,13 +26,25 @@ def oracle_eval(req, out):
     return "a read-only command crashed or failed unexpectedly: " + out[:200]
 
 def k1_total_overflow(req, out):
-    """known finding K1: the sum of entry durations leaves int64 -> 'Integer overflow' panic in evaluation"""
-    if not req.startswith("eval-all ") or "crash" not in out:
+    """known finding K1: the sum of entry durations leaves int64 -> 'Integer overflow' panic (Duration.Plus) in evaluation.
+    Narrow: the recorded panic message must be that one, and the durations of the file must really add up beyond int64."""
+    if not req.startswith("eval-all ") or not out.startswith("crash "):
         return False
     import re
+    f = out.split(" ")
+    try:
+        msg = bytes.fromhex(f[2]).decode("utf-8", "replace") if len(f) > 2 else ""
+    except ValueError:
+        msg = ""
+    if "Integer overflow" not in msg:
+        return False
     b = unhx(req.split(" ")[1])
-    nums = [int(x) for x in re.findall(rb"[0-9]{15,}", b)]
-    return sum(nums) * 60 > 2**62 or any(n > 2**62 for n in nums)
+    total = 0
+    for m in re.finditer(rb"(?:(\d+)h)?(?:(\d+)m)?", b):
+        h, mi = m.group(1), m.group(2)
+        if h or mi:
+            total += int(h or 0) * 60 + int(mi or 0)
+    return total > 2**63 - 1
 
 def suites():
     return [
